@@ -359,5 +359,29 @@ func stackEffect(st *ssa.Store, field int) (delta int, kind string) {
 			return 0, "reset"
 		}
 	}
+	// any value of length 0: nil, x[:0] of whatever slice, or a choice between such values
+	if emptySliceValue(st.Val, 0) {
+		return 0, "reset"
+	}
 	return 0, "unknown"
+}
+
+func emptySliceValue(v ssa.Value, depth int) bool {
+	if depth > 4 {
+		return false
+	}
+	switch x := v.(type) {
+	case *ssa.Const:
+		return x.Value == nil
+	case *ssa.Slice:
+		return (x.Low == nil || core.IsConstInt(x.Low, 0)) && x.High != nil && core.IsConstInt(x.High, 0)
+	case *ssa.Phi:
+		for _, e := range x.Edges {
+			if !emptySliceValue(e, depth+1) {
+				return false
+			}
+		}
+		return len(x.Edges) > 0
+	}
+	return false
 }
